@@ -9,10 +9,10 @@ cd $WT || exit 2
 git checkout -q -- . && git clean -fdq -e target
 mkdir -p "$(dirname "$DEMO_DEST")"; cp "$SEED/$DEMO_SRC" "$DEMO_DEST"
 echo "--- demo without the change"
-cargo test --offline "$@" 2>&1 | grep -E "^test result|panicked|error(\[|:)" | head -5
+cargo test --offline "$@" 2>&1 | grep -E "^test result|panicked|error(\[|:)" | tail -4
 git apply "$SEED/patch.diff" || { echo "PATCH DOES NOT APPLY"; exit 2; }
 echo "--- demo with the change"
-cargo test --offline "$@" 2>&1 | grep -E "^test result|panicked|error(\[|:)" | head -5
+cargo test --offline "$@" 2>&1 | grep -E "^test result|panicked|error(\[|:)" | tail -4
 rm -f "$DEMO_DEST"
 echo "--- existing suite with the change"
 cargo test --workspace --no-fail-fast --offline 2>&1 | grep -E "^test result|FAILED|failed|error(\[|:)" | awk '{s+=$4; f+=$6} END {print "passed",s,"failed",f}'
